@@ -1,4 +1,5 @@
 import Carquet.Properties.C11.Plain
+import Carquet.Proofs.PlainDecEq
 /-
 C12 (PLAIN, BYTE_STREAM_SPLIT and dictionary-page parts) — the bytes carquet's encoders emit
 follow the Parquet encoding specification, in both directions.
@@ -245,6 +246,60 @@ theorem C12_plain_byte_array_decoder_eq_spec (input : List UInt8) (n : Nat) (hlt
 
 example : Spec.Plain.decodeByteArray 2 [1, 0, 0, 0, 7, 0xFF, 0xFF, 0xFF, 0xFF] = none ∧
     Plain.decodeByteArray [1, 0, 0, 0, 7, 0xFF, 0xFF, 0xFF, 0xFF] 2 = .err := by decide
+
+/-- INT96: on **every** input the element loop of `carquet_decode_plain_int96` accepts exactly when
+the Spec decoder (12-byte little-endian numbers) accepts, consumes `12·n` bytes, and the three
+words of each returned `carquet_int96_t` hold the Spec's number (`int96ToNat` is injective:
+`C12_plain_int96_words_determined`).  `n·12 < 2^64`: the size check uses the wrapped product
+(`C08_plain_int96_wrap_witness`). -/
+theorem C12_plain_int96_decoder_eq_spec (input : List UInt8) (n : Nat) (h : n * 12 < 2 ^ 64) :
+    match Spec.Plain.decodeFixed 12 n input with
+    | none => Plain.decodeInt96 input n = .err
+    | some (ns, _) => ∃ vs, Plain.decodeInt96 input n = .ok vs (n * 12) ∧ vs.map Plain.int96ToNat = ns :=
+  decodeInt96_eq_spec input n h
+
+/-- the 96-bit number determines the three words -/
+theorem C12_plain_int96_words_determined (a b : Plain.Int96) (h : Plain.int96ToNat a = Plain.int96ToNat b) :
+    a = b := by
+  obtain ⟨a0, a1, a2⟩ := a
+  obtain ⟨b0, b1, b2⟩ := b
+  have h0 := a0.toNat_lt; have h1 := a1.toNat_lt; have h2 := a2.toNat_lt
+  have k0 := b0.toNat_lt; have k1 := b1.toNat_lt; have k2 := b2.toNat_lt
+  simp only [Plain.int96ToNat] at h
+  have e0 : a0.toNat = b0.toNat := by omega
+  have e1 : a1.toNat = b1.toNat := by omega
+  have e2 : a2.toNat = b2.toNat := by omega
+  rw [UInt32.toNat_inj.mp e0, UInt32.toNat_inj.mp e1, UInt32.toNat_inj.mp e2]
+
+example : Spec.Plain.decodeFixed 12 1 [1, 0, 0, 0, 2, 0, 0, 0, 3, 0, 0, 0, 9] = some ([1 + 2 * 2 ^ 32 + 3 * 2 ^ 64], [9]) ∧
+    Plain.decodeInt96 [1, 0, 0, 0, 2, 0, 0, 0, 3, 0, 0, 0, 9] 1 = .ok [(1, 2, 3)] 12 ∧
+    Spec.Plain.decodeFixed 12 2 [1, 0, 0, 0, 2, 0, 0, 0, 3, 0, 0, 0, 9] = none ∧
+    Plain.decodeInt96 [1, 0, 0, 0, 2, 0, 0, 0, 3, 0, 0, 0, 9] 2 = .err := by decide
+
+/-- FIXED_LEN_BYTE_ARRAY: on **every** input `carquet_decode_plain_fixed_byte_array` accepts
+exactly when the Spec decoder accepts, and its flat output buffer holds the Spec's values back to
+back (`n` values of `k` bytes each, `n·k` bytes consumed). -/
+theorem C12_plain_flba_decoder_eq_spec (input : List UInt8) (n k : Nat) (hk : 0 < k) (h : n * k < 2 ^ 64) :
+    Plain.decodeFlba input n k =
+      (match Spec.Plain.decodeFlba k n input with
+       | none => .err
+       | some (vs, _) => .ok vs.flatten (n * k)) ∧
+    (∀ vs rest, Spec.Plain.decodeFlba k n input = some (vs, rest) →
+       vs.length = n ∧ (∀ v ∈ vs, v.length = k) ∧ rest = input.drop (n * k)) := by
+  refine ⟨decodeFlba_eq_spec input n k hk h, ?_⟩
+  intro vs rest hs
+  by_cases hl : input.length < n * k
+  · rw [spec_decodeFlba_none k n input hl] at hs; cases hs
+  · obtain ⟨vs', h1, _, h3, h4⟩ := spec_decodeFlba_take k n input (by omega)
+    rw [h1] at hs
+    simp only [Option.some.injEq, Prod.mk.injEq] at hs
+    obtain ⟨rfl, rfl⟩ := hs
+    exact ⟨h3, h4, rfl⟩
+
+example : Spec.Plain.decodeFlba 3 2 [1, 2, 3, 4, 5, 6, 7] = some ([[1, 2, 3], [4, 5, 6]], [7]) ∧
+    Plain.decodeFlba [1, 2, 3, 4, 5, 6, 7] 2 3 = .ok [1, 2, 3, 4, 5, 6] 6 ∧
+    Spec.Plain.decodeFlba 3 3 [1, 2, 3, 4, 5, 6, 7] = none ∧ Plain.decodeFlba [1, 2, 3, 4, 5, 6, 7] 3 3 = .err := by
+  decide
 
 /-! ## BYTE_STREAM_SPLIT -/
 
